@@ -1296,6 +1296,37 @@ fn run_stats_truth(ex: &mut Executor, spec: &ExecSpec, analysed: bool, label: &s
             return out;
         }
     }
+    // the `Data size` row: 64 bytes per selected RDH plus their payload bytes, in the report's units
+    {
+        let fmt = |n: u64| -> String {
+            match n {
+                0..=1024 => format!("{n} B"),
+                1025..=1_048_576 => format!("{:.2} KiB", n as f64 / 1024.0),
+                1_048_577..=1_073_741_824 => format!("{:.2} MiB", n as f64 / 1_048_576.0),
+                _ => format!("{:.2} GiB", n as f64 / 1_073_741_824.0),
+            }
+        };
+        let count = if f == itsgen::walker::Filter::None { t.rdhs_seen } else { t.rdhs_filtered };
+        let want = if count == 0 { fmt(0) } else { fmt(count * 64 + t.payload_size) };
+        let text = oracle::strip_ansi(&String::from_utf8_lossy(&r.stdout));
+        if let Some(line) = text.lines().find(|l| l.contains("Data size")) {
+            let cell: String = line.splitn(2, "Data size").nth(1).unwrap_or("").trim().to_string();
+            if !cell.starts_with(&want) {
+                out.fail = Some(Fail::new(
+                    "statistics",
+                    "report-Data-size",
+                    format!(
+                        "report shows Data size `{}`; {count} selected RDHs of 64 bytes and {} payload bytes make {want} [cmd: {}]",
+                        cell.chars().take(24).collect::<String>().trim_end(),
+                        t.payload_size,
+                        spec.cmdline()
+                    ),
+                ));
+                return out;
+            }
+            ex.probe("c14_report_data_size_checked");
+        }
+    }
     // the FEE IDs the report lists are the lowest ones, and what it leaves out is counted: listed + `K more` == all
     if let Some((listed, more)) = oracle::report_fee_ids(&r.stdout) {
         // (the report shows them in ascending order)
